@@ -70,8 +70,10 @@ class ConcMixin(object):
         return out
 
     def conc_replay(self, m):
-        return [self.conc_case(m['conc'], _unplain(m['scenario']), m['seed'], m['line_p'],
-                               decisions=m.get('decisions'))]
+        # a run is a function of (scenario, seed, line_p): re-running with the same seed repeats it
+        # exactly; the recorded scheduler decisions are kept in the file for reading only (driving
+        # the scheduler from them does not restore the other random draws of a run)
+        return [self.conc_case(m['conc'], _unplain(m['scenario']), m['seed'], m['line_p'])]
 
 
 def _plain(scn):
